@@ -2,6 +2,7 @@
 group, lets TLC judge every shard (records + the family claims of the shard), then the family index of all shards."""
 import concurrent.futures as cf
 import glob
+import hashlib
 import json
 import os
 import time
@@ -88,9 +89,13 @@ def pick_lines(path, idxs):
 def run_codec_check(ctx, pid, mode, judge, extra=None):
     """extra: optional callable(ctx, exe, wd, judge_shard) for additional (TLC generated) record files."""
     ctx.level = "exploration"
-    flags = ()
+    # thorough: ASan/UBSan build (a sanitizer report aborts the harness => machinery failure, never a silent pass)
+    flags = ("-fsanitize=address,undefined", "-fno-sanitize-recover=all") if ctx.thorough else ()
+    henv = {"ASAN_OPTIONS": "detect_leaks=0"}        # the harness keeps its definitions alive until exit
     exe = build.build("c05_decode", ["c05_decode.cpp"], ["ebus", "utils"], extra_flags=flags)
-    wd = recs.workdir(pid)
+    # own work directory per (property, tier, source tree): concurrent runs (e.g. mutants) do not disturb each other
+    uniq = "%s-%s-%s" % (pid, ctx.tier, hashlib.sha1(build.REPO.encode()).hexdigest()[:6])
+    wd = recs.workdir(uniq)
     for f in glob.glob(wd + "/g_*"):
         os.remove(f)
     stats = {"records": 0, "distinct": 0, "open": 0, "states": 0, "fams": 0, "shards": 0, "tlc_s": 0.0}
@@ -100,9 +105,9 @@ def run_codec_check(ctx, pid, mode, judge, extra=None):
     conc = 3
     workers = 5
 
-    def judge_shard(sp, idx, tag):
+    def judge_shard(sp, idx, tag, tier=None):
         res, bad = recs.judge(ctx, judge, judge + ".cfg", sp, workers=workers, heap="7g", timeout=1700,
-                              env={"VF_FAMS": idx, "VF_TIER": ctx.tier}, tag=tag)
+                              env={"VF_FAMS": idx, "VF_TIER": tier or ctx.tier}, tag=tag)
         for v in res["vf"]:
             if len(v) >= 3 and v[1] == "INCOMPLETE":
                 raise tlc.TlcFailure("incomplete enumeration: %s" % (v,))
@@ -117,17 +122,30 @@ def run_codec_check(ctx, pid, mode, judge, extra=None):
                 ctx.violation(key, what, r)
         return res, nopen
 
+    if ctx.replay_path:
+        # re-run exactly the recorded input(s) on the tree as it is now and let TLC judge the fresh record(s)
+        with open(ctx.replay_path) as f:
+            rp = json.load(f)
+        one = os.path.join(wd, "replay_in.ndjson")
+        with open(one, "w") as f:
+            f.write(json.dumps(rp["replay"], separators=(",", ":")) + "\n")
+        prefix = os.path.join(wd, "g_replay")
+        recs.run_harness(ctx, exe, [prefix, "replay", mode, "replay", one], env=henv)
+        res, nopen = judge_shard(prefix + ".000.ndjson", prefix + ".000.idx", uniq + "-replay", tier="replay")
+        stats["records"] = stats["distinct"] = 1
+        return stats, [rp["replay"]], {}
+
     def do_group(g):
         t0 = time.time()
         prefix = os.path.join(wd, "g_" + g.replace("/", "of"))
-        recs.run_harness(ctx, exe, [prefix, ctx.tier, mode, g])
+        recs.run_harness(ctx, exe, [prefix, ctx.tier, mode, g], env=henv)
         shards = sorted(glob.glob(prefix + ".*.ndjson"))
         n = 0
         for sp in shards:
             idx = sp[:-len(".ndjson")] + ".idx"
             with open(idx) as f:
                 fl = [l for l in f if l.strip()]
-            res, nopen = judge_shard(sp, idx, "%s-%s" % (pid, os.path.basename(sp)))
+            res, nopen = judge_shard(sp, idx, "%s-%s" % (uniq, os.path.basename(sp)))
             with open(sp) as f:
                 first = f.readline()
             fam_lines.extend(fl)
@@ -150,14 +168,14 @@ def run_codec_check(ctx, pid, mode, judge, extra=None):
         for fut in [ex.submit(do_group, g) for g in groups(ctx)]:
             fut.result()
     if extra:
-        extra(ctx, exe, wd, judge_shard, stats, samples)
+        extra(ctx, exe, wd, judge_shard, stats, samples, uniq)
     # coverage of the type table across all shards
     allidx = os.path.join(wd, "all.idx")
     with open(allidx, "w") as f:
         f.writelines(fam_lines)
     try:
         res = tlc.run("CodecIndex", "CodecIndex.cfg", env={"VF_FAMS": allidx, "VF_TIER": ctx.tier, "VF_MODE": mode},
-                      workers=1, timeout=300, heap="2g", tag=pid + "-index")
+                      workers=1, timeout=300, heap="2g", tag=uniq + "-index")
     except tlc.TlcFailure as e:
         miss = [l for l in str(e).splitlines() if "MISSING" in l]
         raise tlc.TlcFailure("family index incomplete: %s\n%s" % (miss, str(e)[-1500:]))
